@@ -226,8 +226,8 @@ pub fn run(tier: Tier) -> i32 {
     let mut rep = Report::new("C07", tier);
     crate::engine::start_watchdog("C07", std::time::Duration::from_secs(60));
     let py = python_crosscheck();
-    let nmax: usize = tier.pick(6, 12);
-    let wide = tier == Tier::Thorough;
+    let nmax: usize = tier.pick(10, 16);
+    let wide = true;
     let mut shards = Vec::new();
     for n in 0..=nmax {
         for a in values_for(n as i64, wide) {
